@@ -119,7 +119,12 @@ func runC10(c *core.Ctx) {
 			if bytes.Contains(au.annexb, []byte{0, 0, 0, 1}) {
 				c.Probe("four-byte-start-code")
 			}
-			if c.Guard("codecs.H264Payloader.Payload", func() { payloads = pay.Payload(uint16(mtu), au.annexb) }) {
+			input := au.annexb
+			if len(au.units) == 1 && t.Chance(1, 4) {
+				input = au.units[0] // a single NAL unit handed over without any start code
+				c.Probe("raw-unit-without-start-code")
+			}
+			if c.Guard("codecs.H264Payloader.Payload", func() { payloads = pay.Payload(uint16(mtu), input) }) {
 				return
 			}
 			cons.feed(payloads, units)
